@@ -6,6 +6,8 @@ pipeline  sender's event queue → receiver's command queue → mailbox,  no mes
 conserved per caller.
 -/
 namespace QM.Sys
+set_option linter.unusedSectionVars false
+variable [Cfg]
 
 /-! ### selections -/
 
@@ -203,6 +205,7 @@ theorem selE_unrouted {s : Sys} (h : RInv s) {a : Pid} (ha : s.env.router a = no
       | await _ _ => rfl
       | procResults _ _ => rfl
       | resultResp _ _ => rfl
+      | exited _ => rfl
   exact this _ (h.evts w)
 
 theorem selC_unrouted {s : Sys} (h : RInv s) {b : Pid} (hb : s.env.router b = none) (a : Pid) (w : Wid) :
@@ -294,6 +297,7 @@ theorem selE_of_evtOK {router : Router} {plen : Nat} {w : Wid} {a b : Pid} :
     | await _ _ => rfl
     | procResults _ _ => rfl
     | resultResp _ _ => rfl
+    | exited _ => rfl
 
 theorem DInv.workerEff {s s' : Sys} {i : Wid} (h : DInv s) (e : WorkerEff s s' i) : DInv s' := by
   obtain ⟨evs, hev, hsent⟩ := e.evs
@@ -370,6 +374,14 @@ theorem Shape.setWk {s : Sys} {i : Wid} {w' : WorkerSt} (hs : ∀ p, (w'.procs p
   { env := rfl, prog := rfl, cmdQ := rfl, known := known_setWk_same hs, evs := ⟨[], by simp, by simp [evtMsgs]⟩,
     appended := rfl, dropped := rfl, spawned := rfl, spawnNotified := rfl }
 
+theorem Shape.noteExit (s : Sys) (i : Wid) (cur : Pid) (x : Proc) : Shape s (s.noteExit i cur x) i := by
+  rcases noteExit_eq s i cur x with e | e
+  · rw [e]; exact Shape.refl s i
+  · rw [e]
+    exact { env := rfl, prog := rfl, cmdQ := rfl, known := fun _ _ => Iff.rfl,
+            evs := ⟨[.exited cur], by simp, by simp [evtMsgs, evtMsg]⟩,
+            appended := rfl, dropped := rfl, spawned := rfl, spawnNotified := rfl }
+
 theorem Shape.pushEvt (s : Sys) (i : Wid) (e : Evt) (he : evtMsg e = none) : Shape s (s.pushEvt i e) i :=
   { env := rfl, prog := rfl, cmdQ := rfl, known := fun _ _ => Iff.rfl,
     evs := ⟨[e], by simp, by simp [evtMsgs, he]⟩,
@@ -391,7 +403,7 @@ theorem Shape.execStep (s : Sys) (i : Wid) (fuel : Nat) (ordQ : List Pid) : Shap
     · exact Shape.setWk hs1.dom
     · rename_i x hx
       split
-      · exact Shape.setWk (hs1.trans (SameProcs.finish (w := { w0 with queue := rest }) hx rfl ordQ)).dom
+      · exact (Shape.setWk (hs1.trans (SameProcs.finish (w := { w0 with queue := rest }) hx rfl ordQ)).dom).trans (Shape.noteExit _ i cur x)
       · generalize hsl : slice s.prog s.now cur fuel x = r
         obtain ⟨x', out⟩ := r
         have hdom : ∀ (q sp se : List Pid) (p : Pid),
@@ -415,11 +427,11 @@ theorem Shape.execStep (s : Sys) (i : Wid) (fuel : Nat) (ordQ : List Pid) : Shap
         | failed =>
           have hx2 : ({ w0 with queue := rest, procs := upd w0.procs cur (some x') } : WorkerSt).procs cur = some x' := by simp
           have := (SameProcs.finish (w := { w0 with queue := rest, procs := upd w0.procs cur (some x') }) hx2 rfl ordQ).dom
-          exact Shape.setWk (fun p => (this p).trans (hdom _ _ _ p))
+          exact (Shape.setWk (fun p => (this p).trans (hdom _ _ _ p))).trans (Shape.noteExit _ i cur x')
         | done =>
           have hx2 : ({ w0 with queue := rest, procs := upd w0.procs cur (some x') } : WorkerSt).procs cur = some x' := by simp
           have := (SameProcs.finish (w := { w0 with queue := rest, procs := upd w0.procs cur (some x') }) hx2 rfl ordQ).dom
-          exact Shape.setWk (fun p => (this p).trans (hdom _ _ _ p))
+          exact (Shape.setWk (fun p => (this p).trans (hdom _ _ _ p))).trans (Shape.noteExit _ i cur x')
 
 theorem Shape.pushEvtReported (s : Sys) (i : Wid) (e : Evt) (he : evtMsg e = none) (rep : List (Pid × Pid)) :
     Shape s { s.pushEvt i e with reported := rep } i :=
@@ -1094,6 +1106,7 @@ theorem DInv.envStep1 {s : Sys} (h : DInv s) (combine) (w : Wid) : DInv (envStep
     | await a ts => exact (h.popEvtOther hq rfl).handleAwait he
     | procResults a rs => exact (h.popEvtOther hq rfl).handleProcResults combine he
     | resultResp req r => exact (h.popEvtOther hq rfl).envOther _ _
+    | exited p => exact h.popEvtOther hq rfl
 
 theorem DInv.micro {R : Rules} (hR : R.Tame) {s : Sys} (h : DInv s) (m : Micro) : DInv (microStep R s m) := by
   cases m with
